@@ -1549,9 +1549,12 @@ class Probe:
         return True
 
 # ----------------------------------------------------------------------------- running
-def run_impl(binary, progs, ck):
+def run_impl(binary, progs, ck, srcs=None):
     """run all programs through engine processes (in parallel chunks); restart after a timeout"""
-    srcs = [php_prog(p) for p in progs]
+    if srcs is None:
+        srcs = [php_prog(p) for p in progs]
+    else:
+        progs = srcs
     results = [None] * len(progs)
     nproc = max(1, min(8, vcheck.NCPU // 2, (len(progs) + 49) // 50))
     chunks = [list(range(i, len(progs), nproc)) for i in range(nproc)]
@@ -1600,6 +1603,170 @@ def run_impl(binary, progs, ck):
                 if rest:
                     pending.append(rest)
     return srcs, results
+
+
+# ----------------------------------------------------------------------------- built-in functions at their minimum arity
+# (function, minimum number of arguments in the PHP manual, a call passing exactly that many).  The missing-argument
+# check of CallExpression (ArgumentCountError, /repo 3d18be9) is for functions declared in scripts; a built-in implemented
+# in Go that declares an optional parameter without a default must not be rejected (/repo 53506ae).  The first rows are the
+# built-ins whose Go parameter list has more default-less parameters than the manual's minimum.
+BUILTIN_MIN_ARITY = [
+    ('array_reverse', 1, 'array_reverse([1,2,3])'),
+    ('array_walk', 2, 'array_walk($a, function($v,$k){ echo $v; })'),
+    ('number_format', 1, 'number_format(1234.5)'),
+    ('pathinfo', 1, 'pathinfo("/a/b/c.txt")'),
+    ('trigger_error', 1, 'trigger_error("note")'),
+    ('strtok', 1, 'strtok("a b")'),
+    ('getenv', 0, 'getenv()'),
+    ('umask', 0, 'umask()'),
+    ('implode', 1, 'implode(["a","b"])'),
+    ('join', 1, 'join(["a","b"])'),
+    ('grapheme_substr', 2, 'grapheme_substr("abcdef", 2)'),
+    ('spl_autoload_register', 0, 'spl_autoload_register()'),
+    ('mkdir', 1, 'mkdir("/tmp")'),
+    ('fwrite', 2, 'fwrite($fh, "x")'),
+    ('array_combine', 2, 'array_combine(["a"],[1])'),
+    ('array_fill_keys', 2, 'array_fill_keys(["a"],0)'),
+    ('array_filter', 1, 'array_filter([1,0,2])'),
+    ('array_flip', 1, 'array_flip(["a","b"])'),
+    ('array_is_list', 1, 'array_is_list([1])'),
+    ('array_key_exists', 2, 'array_key_exists("a",["a"=>1])'),
+    ('array_key_first', 1, 'array_key_first([1])'),
+    ('array_keys', 1, 'array_keys([1,2])'),
+    ('array_map', 2, 'array_map(function($x){return $x;},[1])'),
+    ('array_merge', 0, 'array_merge()'),
+    ('array_pad', 3, 'array_pad([1],2,0)'),
+    ('array_pop', 1, 'array_pop($a)'),
+    ('array_push', 1, 'array_push($a)'),
+    ('array_rand', 1, 'array_rand([5])'),
+    ('array_reduce', 2, 'array_reduce([1,2],function($c,$x){return $c+$x;})'),
+    ('array_search', 2, 'array_search(2,[1,2])'),
+    ('array_shift', 1, 'array_shift($a)'),
+    ('array_slice', 2, 'array_slice([1,2,3],1)'),
+    ('array_splice', 2, 'array_splice($a,1)'),
+    ('array_unique', 1, 'array_unique([1,1])'),
+    ('array_unshift', 1, 'array_unshift($a)'),
+    ('array_values', 1, 'array_values([1])'),
+    ('base64_decode', 1, 'base64_decode("YQ==")'),
+    ('base64_encode', 1, 'base64_encode("a")'),
+    ('basename', 1, 'basename("/a/b")'),
+    ('bin2hex', 1, 'bin2hex("a")'),
+    ('call_user_func', 1, 'call_user_func(function(){return 1;})'),
+    ('ceil', 1, 'ceil(1.2)'),
+    ('chr', 1, 'chr(65)'),
+    ('class_exists', 1, 'class_exists("Nope")'),
+    ('count', 1, 'count([1])'),
+    ('ctype_digit', 1, 'ctype_digit("12")'),
+    ('current', 1, 'current($a)'),
+    ('define', 2, 'define("C_X",1)'),
+    ('defined', 1, 'defined("C_Y")'),
+    ('dirname', 1, 'dirname("/a/b")'),
+    ('end', 1, 'end($a)'),
+    ('explode', 2, 'explode(",","a,b")'),
+    ('file_exists', 1, 'file_exists("/nonexistent")'),
+    ('filter_var', 1, 'filter_var("1")'),
+    ('floor', 1, 'floor(1.5)'),
+    ('function_exists', 1, 'function_exists("strlen")'),
+    ('get_debug_type', 1, 'get_debug_type(1)'),
+    ('gettype', 1, 'gettype(1)'),
+    ('gmdate', 1, 'gmdate("Y")'),
+    ('hash', 2, 'hash("md5","a")'),
+    ('htmlspecialchars', 1, 'htmlspecialchars("<")'),
+    ('http_build_query', 1, 'http_build_query(["a"=>1])'),
+    ('in_array', 2, 'in_array(1,[1])'),
+    ('is_a', 2, 'is_a(1,"X")'),
+    ('is_array', 1, 'is_array(1)'),
+    ('is_callable', 1, 'is_callable("strlen")'),
+    ('is_numeric', 1, 'is_numeric("1")'),
+    ('iterator_to_array', 1, 'iterator_to_array([1])'),
+    ('json_decode', 1, 'json_decode("1")'),
+    ('json_encode', 1, 'json_encode(1)'),
+    ('key', 1, 'key($a)'),
+    ('ksort', 1, 'ksort($a)'),
+    ('krsort', 1, 'krsort($a)'),
+    ('lcfirst', 1, 'lcfirst("Ab")'),
+    ('levenshtein', 2, 'levenshtein("a","b")'),
+    ('ltrim', 1, 'ltrim(" a")'),
+    ('max', 1, 'max([1,2])'),
+    ('mb_strlen', 1, 'mb_strlen("a")'),
+    ('mb_strpos', 2, 'mb_strpos("ab","b")'),
+    ('mb_strtolower', 1, 'mb_strtolower("A")'),
+    ('mb_substr', 2, 'mb_substr("abc",1)'),
+    ('md5', 1, 'md5("a")'),
+    ('microtime', 0, 'microtime()'),
+    ('min', 1, 'min([1,2])'),
+    ('next', 1, 'next($a)'),
+    ('ord', 1, 'ord("a")'),
+    ('parse_url', 1, 'parse_url("http://a/b")'),
+    ('pow', 2, 'pow(2,3)'),
+    ('preg_match', 2, 'preg_match("/a/","a")'),
+    ('preg_match_all', 2, 'preg_match_all("/a/","aa")'),
+    ('preg_quote', 1, 'preg_quote("a.b")'),
+    ('preg_replace', 3, 'preg_replace("/a/","b","a")'),
+    ('preg_replace_callback', 3, 'preg_replace_callback("/a/",function($m){return "b";},"a")'),
+    ('preg_split', 2, 'preg_split("/,/","a,b")'),
+    ('prev', 1, 'prev($a)'),
+    ('rawurlencode', 1, 'rawurlencode("a b")'),
+    ('reset', 1, 'reset($a)'),
+    ('round', 1, 'round(1.5)'),
+    ('rsort', 1, 'rsort($a)'),
+    ('rtrim', 1, 'rtrim("a ")'),
+    ('serialize', 1, 'serialize(1)'),
+    ('sort', 1, 'sort($a)'),
+    ('sprintf', 1, 'sprintf("a")'),
+    ('str_contains', 2, 'str_contains("ab","a")'),
+    ('str_ireplace', 3, 'str_ireplace("A","b","a")'),
+    ('str_pad', 2, 'str_pad("a",3)'),
+    ('str_repeat', 2, 'str_repeat("a",2)'),
+    ('str_replace', 3, 'str_replace("a","b","a")'),
+    ('str_split', 1, 'str_split("ab")'),
+    ('strcasecmp', 2, 'strcasecmp("a","A")'),
+    ('stripos', 2, 'stripos("ab","B")'),
+    ('strlen', 1, 'strlen("a")'),
+    ('strpos', 2, 'strpos("ab","b")'),
+    ('strrpos', 2, 'strrpos("abb","b")'),
+    ('strstr', 2, 'strstr("a@b","@")'),
+    ('strtolower', 1, 'strtolower("A")'),
+    ('strtotime', 1, 'strtotime("2020-01-01 00:00:00 UTC")'),
+    ('strtr', 2, 'strtr("ab",["a"=>"x"])'),
+    ('substr', 2, 'substr("abc",1)'),
+    ('substr_count', 2, 'substr_count("aa","a")'),
+    ('substr_replace', 3, 'substr_replace("abc","x",1)'),
+    ('time', 0, 'time()'),
+    ('trim', 1, 'trim(" a ")'),
+    ('ucfirst', 1, 'ucfirst("a")'),
+    ('ucwords', 1, 'ucwords("a b")'),
+    ('unpack', 2, 'unpack("N","\\0\\0\\0\\1")'),
+    ('unserialize', 1, 'unserialize("i:1;")'),
+    ('urlencode', 1, 'urlencode("a b")'),
+    ('usort', 2, 'usort($a,function($x,$y){return $x<=>$y;})'),
+    ('var_export', 1, 'var_export(1)'),
+    ('vsprintf', 2, 'vsprintf("%d",[1])'),
+    ('ob_start', 0, 'ob_start()'),
+    ('phpversion', 0, 'phpversion()'),
+    ('random_int', 2, 'random_int(1,1)'),
+    ('stream_context_create', 0, 'stream_context_create()'),
+    ('json_encode', 1, 'json_encode([1])'),
+    ('spl_object_id', 1, 'spl_object_id(new stdClass())'),
+    ('method_exists', 2, 'method_exists(new stdClass(),"m")'),
+    ('property_exists', 2, 'property_exists("X","p")'),
+    ('is_subclass_of', 2, 'is_subclass_of("X","Y")'),
+    ('error_reporting', 0, 'error_reporting()'),
+    ('func_num_args', 0, 'func_num_args()'),
+    ('get_class', 0, 'get_class()'),
+]
+ARITY_REJECTION = ("Too few arguments", "ArgumentCountError", "缺少参数")
+
+
+def builtin_arity_sources():
+    out = []
+    for name, n, call in BUILTIN_MIN_ARITY:
+        out.append((name, n, "<?php\n$a = [3, 1, 2];\n$fh = fopen(\"php://memory\", \"w\");\n$r = %s;\necho \"@reached\";\n" % call))
+    # the same check must still hold for functions declared in the script (one short, one exact, one with a default)
+    out.append(("user:short", -1, "<?php\nfunction f($a, $b) { return 1; }\n$r = f(1);\necho \"@reached\";\n"))
+    out.append(("user:exact", 2, "<?php\nfunction f($a, $b) { return 1; }\n$r = f(1, 2);\necho \"@reached\";\n"))
+    out.append(("user:default", 1, "<?php\nfunction f($a, $b = 2) { return 1; }\n$r = f(1);\necho \"@reached\";\n"))
+    return out
 
 
 def classify(pr):
@@ -1732,6 +1899,27 @@ def main(ck):
         # model agrees with the implementation, the reference semantics does not
         key = dkey if dkey else "impl-vs-spec:%s:%s" % (fam, classify(pr))
         ck.violation(key, replay)
+
+    # ---- built-ins called with their minimum documented arity (engine only; no Coq model of the built-ins)
+    arity = [] if ck.replay and not (json.load(open(ck.replay)).get("case") or {}).get("builtin") else builtin_arity_sources()
+    if ck.replay and (json.load(open(ck.replay)).get("case") or {}).get("builtin"):
+        want = json.load(open(ck.replay))["case"]["builtin"]
+        arity = [r for r in arity if r[0] == want]
+    if arity:
+        asrcs, ares = run_impl(binary, None, ck, srcs=[r[2] for r in arity])
+        for (name, n, src), o in zip(arity, ares):
+            text = (o.get("out") or "") + " " + (o.get("detail") or "")
+            rejected = any(m in text for m in ARITY_REJECTION)
+            if o.get("outcome") in ("panic", "died", "garbled", "skipped"):
+                ck.violation("builtin-arity:%s:%s" % (name, o.get("outcome")), {"case": {"builtin": name}, "php": src, "impl_out": o,
+                             "clause": "a call with the minimum documented number of arguments crashed the engine"})
+            elif n < 0 and not rejected:
+                ck.violation("user-arity:not-rejected", {"case": {"builtin": name}, "php": src, "impl_out": o,
+                             "clause": "a script function called with fewer arguments than required parameters is an ArgumentCountError"})
+            elif n >= 0 and rejected:
+                ck.violation("builtin-arity:%s" % name, {"case": {"builtin": name}, "php": src, "impl_out": o,
+                             "clause": "a call passing the minimum documented number of arguments is not rejected for its argument count"})
+    ck.cov["builtin_min_arity_calls"] = len(arity)
 
     # ---- measured coverage
     dist = {}
